@@ -39,6 +39,13 @@ for p in paths:
         if "const_assert" in l or "where" == st or st.startswith("pub trait") or st.startswith("impl"):
             continue
         code = l.split("//")[0]
+        if "--delete" in sys.argv:
+            # statement deletion: a plain (compound) assignment or a call statement on one line
+            if re.match(r"^\s*[\w\.\[\]\*\(\) ]+ (=|\+=|-=|\|=|&=|<<=|>>=|\^=) [^=].*;\s*$", code) and not re.match(r"^\s*(let|return|const|static|pub|type)\b", code):
+                muts.append((p, i, l, re.match(r"^\s*", l).group(0) + "// (deleted)", "DEL"))
+            elif re.match(r"^\s*[\w\.]+\.[\w]+\(.*\);\s*$", code) and "assert" not in code and "invariant" not in code:
+                muts.append((p, i, l, re.match(r"^\s*", l).group(0) + "// (deleted)", "DELCALL"))
+            continue
         for rx, rep in OPS:
             for m in re.finditer(rx, code):
                 # skip generics / lifetimes / references / arrows
